@@ -196,7 +196,8 @@
   3))))))
 
 ; ---- str()/repr() images: uninterpreted
-(declare-fun py_str (V) String)
+(declare-fun py_str_other (V) String)
+(define-fun py_str ((x V)) String (ite ((_ is v_str) x) (sval x) (py_str_other x)))   ; str(s) is s for a str
 (declare-fun py_repr (V) String)
 
 ; ---- attributes of pre-existing objects are uninterpreted functions attr_<name> (V) V, declared per VC.
